@@ -313,7 +313,7 @@ fn programs() -> Vec<(&'static str, Option<String>)> {
 }
 
 fn alphabet() -> Vec<PEv> {
-    let mut v: Vec<PEv> = ["PRINT 1", "10 PRINT 2", "RUN", "NEW", "LIST", "X=", "%", "5", "x", "💥", "", "CONT", "20 INPUT Q", "TRACE", "A = 1 : PRINT 1 / 0", "NEW 10", "30 REM S   ", "PRINT \"HI   ", "PRINT RND(1)", "PRINT \"\";: PRINT"].iter().map(|t| PEv::Submit(t.to_string())).collect();
+    let mut v: Vec<PEv> = ["PRINT 1", "10 PRINT 2", "RUN", "NEW", "LIST", "X=", "%", "5", "x", "💥", "", "CONT", "20 INPUT Q", "TRACE", "A = 1 : PRINT 1 / 0", "NEW 10", "30 REM S   ", "PRINT \"HI   ", "PRINT RND(1)", "PRINT \"\";: PRINT", "\u{a0}", " \u{b}"].iter().map(|t| PEv::Submit(t.to_string())).collect();
     v.push(PEv::Break);
     v.push(PEv::Tick);
     v
